@@ -273,10 +273,11 @@ fn describe_want(w: &Want) -> String {
     }
 }
 
-/// Polls the handler until it has nothing more to do.  Returns the recorded batches.
+/// Polls the handler until it has nothing more to do (tokio's cooperative budget makes the
+/// store futures yield every 128 lock acquisitions, hence the loop).  Returns the recorded batches.
 fn drive(server: &mut VServer<InMemoryStore>) -> Vec<(u64, Vec<HeaderResponse>)> {
     block_on(async {
-        for _ in 0..64 {
+        for _ in 0..200_000 {
             poll_fn(|cx| {
                 while server.poll(cx).is_ready() {}
                 Poll::Ready(())
